@@ -22,7 +22,8 @@ TInit == /\ l = 1 /\ lastit = 0 /\ site = "PCA" /\ rank = 0 /\ npc = 1 /\ noise 
          /\ pc = 1 /\ phase = "done" /\ tcls = "Zero" /\ first = TRUE /\ a = "Fin" /\ b = "Fin" /\ conv = "Big"
          /\ left = 0 /\ tick = 0 /\ evals = [i \in 1..MaxNpc |-> IF i = 1 THEN "zero" ELSE "unset"] /\ bvar = "fin"
 
-\* PLS: the number of latent variables that exist lies between rlo and the exact rank of X_c (see c18.py); PCA/CPCA: rlo = rank
+\* rank = exact number of defined components (PCA/CPCA: rank of the centred matrix; PLS1: Krylov dimension; two responses: only a
+\* lower bound 0/1 is known, see c18.py); rlo = rank except where TLC has to search a consistent count
 TReset == /\ IsEv("Reset") /\ Step /\ phase = "done" /\ lastit' = 0
           /\ site' = Ev.site /\ rank' \in Ev.rlo..Ev.rank /\ npc' = Ev.npc /\ noise' = (Ev.noise = 1) /\ cblk' = (Ev.cblk = 1)
           /\ pc' = 0 /\ phase' = "start" /\ tcls' = "Zero" /\ first' = TRUE /\ a' = "Fin" /\ b' = "Fin" /\ conv' = "Big"
@@ -52,8 +53,11 @@ TNull == /\ IsEv("Null") /\ Step /\ Ev.site = site /\ Ev.pc = pc /\ lastit' = 0
             ELSE GuardStop
 
 \* what the property states about a returned model
+\* PLS: a latent variable past the exact count is not defined mathematically; when X still has rank left the code may return a
+\* finite component built on rounding noise there (DESIGN Appendix C caveat) - only finiteness is claimed for it
+Allowed(i) == IF site = "PLS" /\ evals[i] = "zero" THEN {"pos", "zero"} ELSE {evals[i]}
 PropDone(ev) == /\ Len(ev.evals) = npc
-                /\ \A i \in 1..npc : ev.evals[i] = evals[i]
+                /\ \A i \in 1..npc : ev.evals[i] \in Allowed(i)
                 /\ ev.fin = 1 /\ ev.bvar = "fin"
                 /\ ev.ortho \in 0..TolAlg /\ ev.recon \in -1..TolAlg
                 /\ ev.vsum \in 0..TolVar /\ ev.vgap \in -1..TolGap
